@@ -1,4 +1,77 @@
+import Ucfg.Props.C01
 import Ucfg.Model.Normalize
+/-
+  C09 — results never depend on map iteration order.
+
+  Wherever the Go code ranges over a map, the model takes the entries as a list in
+  iteration order.  The theorems say that the observable result does not depend on
+  which permutation that is.
+-/
 namespace Ucfg.C09
-theorem placeholder : True := trivial
+open Ucfg
+
+/-- lookups in an association list with distinct keys do not depend on the order of its entries -/
+theorem dget_perm {d d' : Dict} (hp : d.Perm d') (hnd : (dkeysOf d).Nodup) (k : String) :
+    dget d k = dget d' k := by
+  induction hp with
+  | nil => rfl
+  | cons x _ ih =>
+    obtain ⟨k1, v1⟩ := x
+    simp only [dkeysOf, List.map_cons, List.nodup_cons] at hnd
+    simp only [dget]
+    split
+    · rfl
+    · exact ih hnd.2
+  | swap x y l =>
+    obtain ⟨k1, v1⟩ := x
+    obtain ⟨k2, v2⟩ := y
+    simp only [dkeysOf, List.map_cons, List.nodup_cons, List.mem_cons, not_or] at hnd
+    simp only [dget]
+    by_cases h1 : k1 = k
+    · by_cases h2 : k2 = k
+      · exact absurd (h2.trans h1.symm) hnd.1.1
+      · simp [h1, h2]
+    · by_cases h2 : k2 = k
+      · simp [h1, h2]
+      · simp [h1, h2]
+  | trans h1 h2 ih1 ih2 =>
+    have hnd' : (dkeysOf _).Nodup := (List.Perm.nodup_iff (List.Perm.map Prod.fst h1)).mp hnd
+    rw [ih1 hnd, ih2 hnd']
+
+/-- Merging B's dictionary into A's gives the same value under every key whatever order B's
+entries are enumerated in (mergeConfigDict ranges over a Go map). -/
+theorem mergeDict_order_independent (h : Handling) (d1 d2 d2' : Dict) (hp : d2.Perm d2')
+    (hnd : (dkeysOf d2).Nodup) (k : String) :
+    dget (mergeDictP h d1 d2) k = dget (mergeDictP h d1 d2') k := by
+  have hnd' : (dkeysOf d2').Nodup := (List.Perm.nodup_iff (List.Perm.map Prod.fst hp)).mp hnd
+  rw [C01.dict_pointwise h d1 d2 k hnd, C01.dict_pointwise h d1 d2' k hnd', dget_perm hp hnd k]
+
+/-- a key without separator or numeric meaning is one named segment -/
+def SimpleKey (o : Opts) (k : String) : Prop := parsePathOpts k o = [.named k]
+
+/-- creating a setting under a simple key that is not there yet stores it under that key -/
+theorem setField_simple_new (o : Opts) (d : Dict) (a : List Val) (hd ha : Bool) (k : String) (v : Val)
+    (hk : SimpleKey o k) (hnew : dget d k = none) :
+    setField o (.sub d a hd ha) k v = .ok (.sub (dset d k v) a true ha) := by
+  unfold setField
+  have hk' : parsePathOpts k o = [.named k] := hk
+  rw [hk']
+  simp [pathGet, fieldGet, tcPlain, Val.dict, hnew, Val.isNilOpt, pathSet, fieldSet]
+
+/-- sorted insertion of two different keys commutes on every lookup -/
+theorem dset_two_order (d : Dict) (k1 k2 : String) (v1 v2 : Val) (hne : k1 ≠ k2) (k : String) :
+    dget (dset (dset d k1 v1) k2 v2) k = dget (dset (dset d k2 v2) k1 v1) k := by
+  by_cases h1 : k = k1
+  · subst h1
+    rw [dget_dset_other _ _ _ _ (Ne.symm hne), dget_dset_same, dget_dset_same]
+  · by_cases h2 : k = k2
+    · subst h2
+      rw [dget_dset_same, dget_dset_other _ _ _ _ hne, dget_dset_same]
+    · rw [dget_dset_other _ _ _ _ (Ne.symm h2), dget_dset_other _ _ _ _ (Ne.symm h1),
+          dget_dset_other _ _ _ _ (Ne.symm h1), dget_dset_other _ _ _ _ (Ne.symm h2)]
+
+/-! non-vacuity -/
+example : SimpleKey {} "abc" := by unfold SimpleKey; decide
+example : ([("a", Val.nilV), ("b", Val.nilV)] : Dict).Perm [("b", Val.nilV), ("a", Val.nilV)] := List.Perm.swap _ _ _
+
 end Ucfg.C09
